@@ -24,7 +24,10 @@ ASSUMPTIONS = [
     "the obsolete-branch rule (head older than 30 days) is outside the quantifier: all times lie within the window",
 ]
 
-SEARCH = ["BUG-7", "fix", "#12", "X"]
+SEARCH = ["BUG-7", "fix", "#12", "X", "v1.2", "(BUG-7)", "a+b", "x|y", "fix*", "[ab]", "\\d", "$1", "c++"]
+# the search text is a plain substring: messages that a regular-expression reading of it would match, but that do not contain it
+REGEX_NEAR = {"v1.2": "v182 released", "(BUG-7)": "see [BUG-7]", "a+b": "aab and ab", "x|y": "only y here", "fix*": "fi fixx",
+              "[ab]": "a or b", "\\d": "digit 5", "$1": "1 dollar", "c++": "ccc"}
 
 
 def tag_branch_str(bname):
@@ -240,13 +243,15 @@ def st_case(draw, max_commits=10):
             k = draw(st.sampled_from([0, 1, 1, 1, 1, 2, 2, 3]))
             parents = sorted(set(draw(st.lists(st.integers(max(0, i - 5), i - 1), min_size=min(k, i), max_size=min(k, i)))),
                              reverse=True) if k else []
-        kind = draw(st.sampled_from(["match", "match", "super", "none", "none", "body", "empty_title"]))
+        kind = draw(st.sampled_from(["match", "match", "super", "none", "none", "body", "empty_title", "near"]))
         if kind == "match":
             msg = "%s something %d" % (search, i)
         elif kind == "super":
             msg = "pre%s7 other %d" % (search, i)
         elif kind == "body":
             msg = "title %d\n\nsee %s in body" % (i, search)
+        elif kind == "near":
+            msg = "%s %d" % (REGEX_NEAR.get(search, "nothing to see"), i)
         elif kind == "empty_title":
             msg = "%s\n%s in the body only %d" % (draw(st.sampled_from(["", "  "])), search, i)
         else:
